@@ -415,6 +415,7 @@ def _seq_units():
     return out
 
 CHECKS["C20"] = dict(
+    engine="seqmc", technique='model checking: exhaustive enumeration of every sequence of API calls up to a stated depth (and, for C17, of every configuration of a grid), each replayed on the real implementation and compared step by step with a reference model (explicit exploration of operation sequences, no sampling)',
     title="single-threaded API vs reference model",
     units=_seq_units(),
     rule="seqmc: every sequence of API calls up to depth d (quick 3, thorough 4 for sets and maps; 5..8 for queues, stacks, deques, priority queues) over the container's whole operation alphabet on colliding keys, from "
@@ -432,6 +433,7 @@ CHECKS["C20"] = dict(
 )
 
 CHECKS["C17"] = dict(
+    engine="seqmc", technique='model checking: exhaustive enumeration of every sequence of API calls up to a stated depth (and, for C17, of every configuration of a grid), each replayed on the real implementation and compared step by step with a reference model (explicit exploration of operation sequences, no sampling)',
     title="resize/rehash loses nothing for any hash functions",
     units=[dict(name="rehash%d" % f, src="harness/rehash.cpp", cxxflags=["-DFAMILY=%d" % f]) for f in (1, 2, 3, 4)],
     rule="seqmc over a configuration grid: for every configuration (container kind x locking policy x probe-set kind/size/threshold or resizing policy or bucket-table kind x initial capacity / load factor x hash-function tuple) "
